@@ -274,8 +274,12 @@ func execute(t *testing.T, c Case) (kind, detail string, hsOK bool) {
 			return
 		}
 		var runaway atomic.Bool
+		var xferBase atomic.Int64 // exchange count when the current transfer started
 		dg.OnExchange = func(n int) {
-			if n > 10000 && !hsOver.Load() { // a handshake that never ends; the transfers after it are bounded by their own loops
+			// a handshake that never ends, or - after it - one transfer that needs more than 20 000 exchanges (the
+			// largest is 3 fragments plus polling at ~26 exchanges per fake second for a few seconds): the querying
+			// goroutine is looping without fake time passing and would keep the bubble from ever becoming quiescent
+			if (n > 10000 && !hsOver.Load()) || (hsOver.Load() && int64(n)-xferBase.Load() > 20000) {
 				runaway.Store(true)
 				runtime.Goexit() // end the goroutine that keeps querying
 			}
@@ -348,6 +352,7 @@ func execute(t *testing.T, c Case) (kind, detail string, hsOK bool) {
 							data[i] = byte(i)
 						}
 					}
+					xferBase.Store(int64(dg.Exchanges))
 					var werr error
 					wdone := make(chan struct{})
 					go func() { _, werr = wr.Write(data); close(wdone) }()
@@ -401,6 +406,7 @@ func execute(t *testing.T, c Case) (kind, detail string, hsOK bool) {
 			return
 		}
 		// both directions at once: full fragments travel in the query AND in its answer
+		xferBase.Store(int64(dg.Exchanges))
 		upData, downData := make([]byte, 2*up+1), make([]byte, 2*down+1)
 		for i := range upData {
 			upData[i] = byte(i*7 + 1)
